@@ -23,7 +23,8 @@ Print Assumptions C18_steady_residual.
 
 (* Forward Euler, any time grid (uniform or not), any PDE form: one level per time step, level 0 is the initial
    condition assembled at t_0, and u_{k+1} = u_k + (t_{k+1} - t_k) (A(p,t_k) u_k + b(p,t_k)) with operator and source
-   assembled at the OLD time t_k; no info. *)
+   assembled at the OLD time t_k; no info.  fbn = the source as numpy broadcasts it against n nodes (a scalar or
+   one-element source term is repeated). *)
 Theorem C18_forward_euler :
   forall (P I : Type) (solver : nat -> qm -> qv -> sret I) (form : P -> Qc -> qm * qv * qv) (Q : quirks)
          (p : P) (times : qv) (levels : list qv) (info : option (list I)),
@@ -31,8 +32,9 @@ Theorem C18_forward_euler :
   info = None /\ length levels = length times /\
   nth 0 levels [] = fic P form p (nth 0 times 0) /\
   forall k, (S k < length times)%nat ->
+    length (nth k levels []) = length (nth 0 levels []) /\
     nth (S k) levels [] =
-      euler_fwd (fA P form p (nth k times 0)) (fb P form p (nth k times 0)) (nth k levels [])
+      euler_fwd (fA P form p (nth k times 0)) (fbn P form p (nth k times 0) (length (nth 0 levels []))) (nth k levels [])
                 (nth (S k) times 0 - nth k times 0).
 Proof. exact forward_euler. Qed.
 Print Assumptions C18_forward_euler.
@@ -41,7 +43,7 @@ Print Assumptions C18_forward_euler.
 Theorem C18_forward_euler_defined :
   forall (P I : Type) (solver : nat -> qm -> qv -> sret I) (form : P -> Qc -> qm * qv * qv) (Q : quirks)
          (p : P) (t0 : Qc) (rest : qv),
-  (forall s, wf_sys (length (fic P form p t0)) (fA P form p s) (fb P form p s) = true) ->
+  (forall s, wf_sys (length (fic P form p t0)) (fA P form p s) (fbn P form p s (length (fic P form p t0))) = true) ->
   exists levels, td_solve P I solver form Q MFwd (Some p) (t0 :: rest) = Ok (levels, None).
 Proof. exact forward_euler_defined. Qed.
 Print Assumptions C18_forward_euler_defined.
@@ -67,25 +69,69 @@ Theorem C18_backward_euler :
     let tk := nth k times 0 in let tk1 := nth (S k) times 0 in let dt := tk1 - tk in
     let uk := nth k levels [] in let uk1 := nth (S k) levels [] in
     let M := be_M P form p tk1 uk dt in let r := be_r P form p tk1 uk dt in
+    let n := length (nth 0 levels []) in
+    length uk = n /\ length uk1 = n /\ wf_sys n (fA P form p tk1) (fbn P form p tk1 n) = true /\
     uk1 = sret_sol (solver k M r) /\
     (S (S k) = length times -> info = snd (split_ret (solver k M r))) /\
     (qmatvec M (sret_sol (solver k M r)) = r ->
-       qvsub uk1 (qvscale dt (qmatvec (fA P form p tk1) uk1)) = qvadd uk (qvscale dt (fb P form p tk1))).
+       qvsub uk1 (qvscale dt (qmatvec (fA P form p tk1) uk1)) = qvadd uk (qvscale dt (fbn P form p tk1 n))).
 Proof. exact backward_euler. Qed.
 Print Assumptions C18_backward_euler.
 
-(* corollary: a solver that is exact on every system it is handed => every level satisfies the implicit recurrence *)
+(* corollary: if the solver's answers obey its law on the calls this run makes (be_law_on_calls; satisfiable whenever the
+   step operators are invertible, see C18_example_backward_hypotheses), every level satisfies the implicit recurrence *)
 Theorem C18_backward_euler_exact_solver :
   forall (P I : Type) (solver : nat -> qm -> qv -> sret I) (form : P -> Qc -> qm * qv * qv)
          (Q : quirks) (p : P) (times : qv) (levels : list qv) (info : option (list I)),
-  (forall k M r, qmatvec M (sret_sol (solver k M r)) = r) ->
   td_solve P I solver form Q MBwd (Some p) times = Ok (levels, info) ->
+  be_law_on_calls P I solver form p times levels ->
   forall k, (S k < length times)%nat ->
     let dt := (nth (S k) times 0 - nth k times 0)%Qc in
     qvsub (nth (S k) levels []) (qvscale dt (qmatvec (fA P form p (nth (S k) times 0)) (nth (S k) levels [])))
-      = qvadd (nth k levels []) (qvscale dt (fb P form p (nth (S k) times 0))).
+      = qvadd (nth k levels []) (qvscale dt (fbn P form p (nth (S k) times 0) (length (nth 0 levels [])))).
 Proof. exact backward_euler_exact_solver. Qed.
 Print Assumptions C18_backward_euler_exact_solver.
+
+(* uniqueness: law on the calls made + step operators I - dt A injective on vectors of n nodes => the stored levels are
+   THE sequence satisfying the implicit recurrence from the initial condition *)
+Theorem C18_backward_euler_unique :
+  forall (P I : Type) (solver : nat -> qm -> qv -> sret I) (form : P -> Qc -> qm * qv * qv)
+         (Q : quirks) (p : P) (times : qv) (levels : list qv) (info : option (list I)) (levels' : list qv),
+  td_solve P I solver form Q MBwd (Some p) times = Ok (levels, info) ->
+  be_law_on_calls P I solver form p times levels ->
+  be_invertible P form p times (length (nth 0 levels [])) ->
+  length levels' = length times ->
+  nth 0 levels' [] = fic P form p (nth 0 times 0) ->
+  (forall k, (S k < length times)%nat ->
+     length (nth (S k) levels' []) = length (nth 0 levels []) /\
+     imp_op (fA P form p (nth (S k) times 0)) (nth (S k) times 0 - nth k times 0) (nth (S k) levels' [])
+       = qvadd (nth k levels' []) (qvscale (nth (S k) times 0 - nth k times 0)
+                                          (fbn P form p (nth (S k) times 0) (length (nth 0 levels []))))) ->
+  levels' = levels.
+Proof. exact backward_euler_unique. Qed.
+Print Assumptions C18_backward_euler_unique.
+
+(* linearity in the data (mirror of C18_forward_euler_linear_in_data): parameter-independent operator, invertible step
+   operators, answers obeying the solver law on the calls made (three possibly different solvers) => the solution for the
+   difference of sources and initial conditions is the difference of the solutions *)
+Theorem C18_backward_euler_linear_in_data :
+  forall (P I : Type) (solver : nat -> qm -> qv -> sret I) (form : P -> Qc -> qm * qv * qv)
+         (Pd : Type) (formd : Pd -> Qc -> qm * qv * qv) (solver1 solver2 : nat -> qm -> qv -> sret I)
+         (Q : quirks) (p1 p2 : P) (pd : Pd) (times : qv) (l1 l2 ld : list qv) (i1 i2 id : option (list I)),
+  (forall t n, fA P form p1 t = fA P form p2 t /\ fA Pd formd pd t = fA P form p1 t /\
+               fbn Pd formd pd t n = qvsub (fbn P form p1 t n) (fbn P form p2 t n) /\
+               fic Pd formd pd t = qvsub (fic P form p1 t) (fic P form p2 t)) ->
+  length (fic P form p1 (nth 0 times 0)) = length (fic P form p2 (nth 0 times 0)) ->
+  td_solve P I solver1 form Q MBwd (Some p1) times = Ok (l1, i1) ->
+  td_solve P I solver2 form Q MBwd (Some p2) times = Ok (l2, i2) ->
+  td_solve Pd I solver formd Q MBwd (Some pd) times = Ok (ld, id) ->
+  be_law_on_calls P I solver1 form p1 times l1 -> be_law_on_calls P I solver2 form p2 times l2 ->
+  be_law_on_calls Pd I solver formd pd times ld ->
+  (forall k, (S k < length times)%nat ->
+     inj_on (length (fic P form p1 (nth 0 times 0))) (fA P form p1 (nth (S k) times 0)) (nth (S k) times 0 - nth k times 0)) ->
+  ld = map2 qvsub l1 l2.
+Proof. exact backward_euler_difference. Qed.
+Print Assumptions C18_backward_euler_linear_in_data.
 
 (* the assembled implicit operator applied to x is x - dt A x; the right-hand side is u + dt b *)
 Theorem C18_backward_system :
@@ -171,12 +217,14 @@ Theorem C18_observe_final_twice_refuted :
 Proof. exact observe_final_twice_refuted. Qed.
 Print Assumptions C18_observe_final_twice_refuted.
 
-(* Otherwise: the interpolation routine on (grid_sol, time_steps, solution) at (grid_obs, time_obs), then the
-   observation map, squeezed only for a single observation time. *)
+(* Otherwise -- unless the repaired code restricts a fully coinciding request (coincide_restriction = None; always so for
+   the code as it is, q_spline_route = true) --: the interpolation routine on (grid_sol, time_steps, solution) at
+   (grid_obs, time_obs), then the observation map, squeezed only for a single observation time. *)
 Theorem C18_observe_interp :
   forall (Q : quirks) (obsmap : option (arr -> res arr)) (interp2 : qv -> qv -> list qv -> qv -> qv -> res qm)
          (G : grids) (gs go times tobs : qv) (levels : list qv),
-  g_eq G && time_test Q times tobs = false -> g_sol G = Some gs -> g_obs G = Some go ->
+  g_eq G && time_test Q times tobs = false -> coincide_restriction Q G times tobs levels = None ->
+  g_sol G = Some gs -> g_obs G = Some go ->
   td_observe Q obsmap interp2 G times tobs levels =
     match interp2 gs times levels go tobs with
     | Er e => Er e
@@ -185,17 +233,80 @@ Theorem C18_observe_interp :
               | Ok b => Ok (true, if (length tobs =? 1)%nat then squeeze b else b)
               end
     end.
-Proof. exact observe_interp. Qed.
+Proof. exact observe_interp_general. Qed.
 Print Assumptions C18_observe_interp.
 
-(* with an interpolant that is exact at the nodes (the law assumed of RectBivariateSpline), entries at coinciding
-   nodes and times are the stored values.  PARTIAL w.r.t. the property text: this needs the interpolation call to
-   succeed; see C18_observe_coinciding_refuted. *)
+Theorem C18_observe_interp_code :
+  forall (Q : quirks) (G : grids) (times tobs : qv) (levels : list qv),
+  q_spline_route Q = true -> coincide_restriction Q G times tobs levels = None.
+Proof. exact coincide_none_code. Qed.
+Print Assumptions C18_observe_interp_code.
+
+(* "exactly at coinciding nodes and times", FULL for the repaired route (fixes/C18_observe_restrict_coinciding.diff,
+   q_spline_route = false): a request all of whose nodes and times are stored ones is answered without the
+   interpolation routine, by the stored values ... *)
+Theorem C18_observe_coinciding :
+  forall (Q : quirks) (obsmap : option (arr -> res arr)) (interp2 : qv -> qv -> list qv -> qv -> qv -> res qm)
+         (G : grids) (times tobs : qv) (levels : list qv) (m : qm),
+  g_eq G && time_test Q times tobs = false -> coincide_restriction Q G times tobs levels = Some m ->
+  td_observe Q obsmap interp2 G times tobs levels =
+    match apply_obsmap obsmap (A2 m) with
+    | Er e => Er e
+    | Ok b => Ok (false, if (length tobs =? 1)%nat then squeeze b else b)
+    end.
+Proof. exact observe_coinciding. Qed.
+Print Assumptions C18_observe_coinciding.
+
+(* ... entry (i, j) being the stored value of the node a with grid_sol[a] = grid_obs[i] at the level b with
+   time_steps[b] = time_obs[j] ... *)
+Theorem C18_coinciding_entries :
+  forall (Q : quirks) (G : grids) (gs go times tobs : qv) (levels : list qv) (m : qm),
+  g_eq G = false -> g_sol G = Some gs -> g_obs G = Some go ->
+  coincide_restriction Q G times tobs levels = Some m ->
+  length m = length go /\
+  forall i j x t, nth_error go i = Some x -> nth_error tobs j = Some t ->
+    exists a b, nth_error gs a = Some x /\ nth_error times b = Some t /\
+                nth j (nth i m []) 0 = nth a (nth b levels []) 0.
+Proof. exact coinciding_entries. Qed.
+Print Assumptions C18_coinciding_entries.
+
+(* ... and that route is taken whenever every observation node is a solution node and every observation time a time step *)
+Theorem C18_coinciding_defined :
+  forall (Q : quirks) (G : grids) (gs go times tobs : qv) (levels : list qv),
+  q_spline_route Q = false -> g_eq G = false -> g_sol G = Some gs -> g_obs G = Some go ->
+  (forall x, In x go -> In x gs) -> (forall t, In t tobs -> In t times) ->
+  exists m, coincide_restriction Q G times tobs levels = Some m.
+Proof. exact coinciding_defined. Qed.
+Print Assumptions C18_coinciding_defined.
+
+(* The law assumed of RectBivariateSpline(grid_sol, time_steps, solution)(grid_obs, time_obs): a tensor product of two
+   one-dimensional interpolants, each exact at its nodes (exact1).  Consequences: a coinciding space node => the row is the
+   time interpolation of that node's stored series; a coinciding time => the column is the space interpolation of that
+   stored level; both => the stored value. *)
+Theorem C18_tensor_interp_nodes :
+  forall (ix it : qv -> qv -> qv -> qv) (gs ts : qv) (sol : list qv) (go to : qv),
+  exact1 ix -> exact1 it -> length sol = length ts -> Forall (fun level => length level = length gs) sol ->
+  let m := tensor_interp ix it gs ts sol go to in
+  length m = length go /\
+  (forall i a x, nth_error go i = Some x -> nth_error gs a = Some x ->
+     nth i m [] = it ts (map (fun level => nth a level 0) sol) to) /\
+  (forall i j b t, (i < length go)%nat -> nth_error to j = Some t -> nth_error ts b = Some t ->
+     nth j (nth i m []) 0 = nth i (ix gs (nth b sol []) go) 0) /\
+  (forall i j a b x t, nth_error go i = Some x -> nth_error gs a = Some x ->
+     nth_error to j = Some t -> nth_error ts b = Some t ->
+     nth j (nth i m []) 0 = nth a (nth b sol []) 0).
+Proof. exact tensor_interp_nodes. Qed.
+Print Assumptions C18_tensor_interp_nodes.
+
+(* with an interpolant that is exact at the nodes (as the tensor law gives: C18_tensor_exact_at_nodes), entries at
+   coinciding nodes and times are the stored values.  PARTIAL w.r.t. the property text for the code as it is: this needs the
+   interpolation call to succeed; see C18_observe_coinciding_refuted. *)
 Theorem C18_observe_interp_nodes_partial :
   forall (Q : quirks) (interp2 : qv -> qv -> list qv -> qv -> qv -> res qm) (G : grids) (gs go times tobs : qv)
          (levels : list qv) (m : qm),
   exact_at_nodes interp2 ->
-  g_eq G && time_test Q times tobs = false -> g_sol G = Some gs -> g_obs G = Some go ->
+  g_eq G && time_test Q times tobs = false -> coincide_restriction Q G times tobs levels = None ->
+  g_sol G = Some gs -> g_obs G = Some go ->
   interp2 gs times levels go tobs = Ok m -> (length tobs <> 1)%nat ->
   td_observe Q None interp2 G times tobs levels = Ok (true, A2 m) /\
   forall i j a b, nth_error go i = nth_error gs a -> nth_error go i <> None ->
@@ -204,10 +315,20 @@ Theorem C18_observe_interp_nodes_partial :
 Proof. exact observe_interp_nodes. Qed.
 Print Assumptions C18_observe_interp_nodes_partial.
 
-(* all nodes and times coincide (time_obs = the whole 3-level time grid, grid_obs defaulted to grid_sol), yet the
-   request is not restricted but handed to the interpolation routine, which (scipy) refuses fewer than 4 points *)
+Theorem C18_tensor_exact_at_nodes :
+  forall (ix it : qv -> qv -> qv -> qv), exact1 ix -> exact1 it ->
+  forall gs ts sol go to, length sol = length ts -> Forall (fun level => length level = length gs) sol ->
+  forall i j a b, nth_error go i = nth_error gs a -> nth_error go i <> None ->
+                  nth_error to j = nth_error ts b -> nth_error to j <> None ->
+                  nth j (nth i (tensor_interp ix it gs ts sol go to) []) 0 = nth a (nth b sol []) 0.
+Proof. exact tensor_exact_at_nodes. Qed.
+Print Assumptions C18_tensor_exact_at_nodes.
+
+(* the code as it is (q_spline_route = true): all nodes and times coincide (time_obs = the whole 3-level time grid, grid_obs
+   defaulted to grid_sol), yet the request is handed to the interpolation routine, which (scipy) refuses fewer than 4 points *)
 Theorem C18_observe_coinciding_refuted :
   forall (Q : quirks) (interp2 : qv -> qv -> list qv -> qv -> qv -> res qm) (g : qv) (t0 t1 t2 : Qc) (levels : list qv),
+  q_spline_route Q = true ->
   (forall gs ts sol go to, (length ts < 4)%nat -> interp2 gs ts sol go to = Er EOther) ->
   t0 <> t2 \/ t1 <> t2 ->
   td_observe Q None interp2 (init_grids (Some g) None) [t0; t1; t2] [t0; t1; t2] levels = Er EOther.
@@ -296,8 +417,8 @@ Theorem C18_forward_euler_unique :
   length levels' = length times ->
   nth 0 levels' [] = fic P form p (nth 0 times 0) ->
   (forall k, (S k < length times)%nat ->
-     nth (S k) levels' [] = euler_fwd (fA P form p (nth k times 0)) (fb P form p (nth k times 0)) (nth k levels' [])
-                                      (nth (S k) times 0 - nth k times 0)) ->
+     nth (S k) levels' [] = euler_fwd (fA P form p (nth k times 0)) (fbn P form p (nth k times 0) (length (nth 0 levels' [])))
+                                      (nth k levels' []) (nth (S k) times 0 - nth k times 0)) ->
   levels' = levels.
 Proof. exact forward_euler_unique. Qed.
 Print Assumptions C18_forward_euler_unique.
@@ -308,8 +429,8 @@ Theorem C18_forward_euler_linear_in_data :
   forall (P I : Type) (solver : nat -> qm -> qv -> sret I) (form : P -> Qc -> qm * qv * qv)
          (Pd : Type) (formd : Pd -> Qc -> qm * qv * qv) (Q : quirks) (p1 p2 : P) (pd : Pd) (times : qv)
          (l1 l2 : list qv) (i1 i2 : option (list I)),
-  (forall t, fA P form p1 t = fA P form p2 t /\ fA Pd formd pd t = fA P form p1 t /\
-             fb Pd formd pd t = qvsub (fb P form p1 t) (fb P form p2 t) /\
+  (forall t n, fA P form p1 t = fA P form p2 t /\ fA Pd formd pd t = fA P form p1 t /\
+             fbn Pd formd pd t n = qvsub (fbn P form p1 t n) (fbn P form p2 t n) /\
              fic Pd formd pd t = qvsub (fic P form p1 t) (fic P form p2 t)) ->
   length (fic P form p1 (nth 0 times 0)) = length (fic P form p2 (nth 0 times 0)) ->
   td_solve P I solver form Q MFwd (Some p1) times = Ok (l1, i1) ->
@@ -317,6 +438,16 @@ Theorem C18_forward_euler_linear_in_data :
   td_solve Pd I solver formd Q MFwd (Some pd) times = Ok (map2 qvsub l1 l2, None).
 Proof. exact forward_euler_difference. Qed.
 Print Assumptions C18_forward_euler_linear_in_data.
+
+(* non-vacuity of the hypotheses of C18_backward_euler_unique / _linear_in_data / _exact_solver: a scalar decay problem with
+   time-dependent source on a non-uniform grid and the exact solver x = r / m *)
+Example C18_example_backward_hypotheses :
+  let times := [qc (0 # 1); qc (1 # 4); qc (3 # 4)] in
+  let p := [qc (3 # 1)] in
+  exists levels, td_solve qv Z ex1_solver ex1_form quirks_fixed MBwd (Some p) times = Ok (levels, None) /\
+    be_law_on_calls qv Z ex1_solver ex1_form p times levels /\
+    be_invertible qv ex1_form p times (length (nth 0 levels [])).
+Proof. exact ex_be_hypotheses. Qed.
 
 (* non-vacuity: a concrete 2-node problem with time-dependent source on a non-uniform grid; forward Euler levels
    computed; backward Euler with an exact 2x2 solver returning (x, call number): the solver law holds on every call *)
